@@ -4,7 +4,7 @@
 mut="$1"; tag="$2"; wt="/tmp/cw_$tag"
 git -C /repo worktree add -q --detach "$wt" HEAD || exit 3
 run() { (cd "$wt" && HMF_REPO_SRC="$wt/src" PYTHONPATH=/tmp/hmfshim PYTHONDONTWRITEBYTECODE=1 timeout 900 /venv/bin/python -B "$@"); }
-sed "s#/tmp/wt[0-9]\\?_[A-Za-z0-9]*#$wt#g" "$mut/demo.py" > "$wt/_demo.py"
+sed "s#/tmp/wt[0-9]*_[A-Za-z0-9]*#$wt#g" "$mut/demo.py" > "$wt/_demo.py"
 run _demo.py > "$wt/_clean.log" 2>&1; clean_rc=$?
 git -C "$wt" apply "$mut/patch.diff"; apply_rc=$?
 run _demo.py > "$wt/_mut.log" 2>&1; mut_rc=$?
